@@ -15,9 +15,10 @@ from pathlib import Path
 from . import core
 
 PID = "C10"
-# sorted for the code-point order; '!' '+' '-' '.' all sort before '/': "a!", "a+/k", "a-b/x", "a.c"
-# sit between "a" and its descendants, "a/y-z" between "a/y" and "a/y/z"; two other roots.
-POOL = ["a", "a!", "a+/k", "a-b/x", "a.c", "a/y", "a/y-z", "a/y/z", "b/a"]
+# sorted for the code-point order; '!' '+' '-' '.' all sort before '/': "a!", "a+/k", "a-b/x"
+# sit between "a" and its descendants, "a/y-z" between "a/y" and "a/y/z"; other roots; "a/yz" and
+# "a/y-z" are SIBLINGS of "a/y" whose last segment extends "y" (string prefix, not path prefix).
+POOL = ["a", "a!", "a+/k", "a-b/x", "a/y", "a/y-z", "a/y/z", "a/yz", "b/a"]
 EDGES = ["a", "a-b", "a!", "b", "a.b", "ab", "a+", "x", "#", "a,b", "Z"]
 UNCLEAN_EDGES = EDGES + ["", ".", "..", " "]
 
@@ -272,6 +273,8 @@ def run(ctx):
                 corpus.append(json.loads(p.read_text(encoding="utf-8"))["taxa"])
         corpus.append([["a", [[7, 1]]], ["a-b/x", [[7, 1]]], ["a/y", [[7, 1]]]])
         corpus.append([["g", [[0, 5]]], ["g/p", [[0, 1]]], ["g/p/x", [[0, 2]]], ["g/p/y", [[1, 1]]]])
+        corpus.append([["flow/loop/for", [[3, 1]]], ["flow/loop/for_each", [[3, 1]]]])
+        corpus.append([["a/b", [[0, 2], [1, 1]]], ["a/bc", [[0, 1]]], ["a/bc/d", [[1, 1]]]])
         ck.batch("corpus", corpus)
         # 1. bounded-exhaustive, one span
         cases = []
@@ -321,8 +324,8 @@ def run(ctx):
         names = sorted({"/".join(p) for d in (1, 2, 3) for p in itertools.product(["a", "a-", "b", "", "."], repeat=d)}
                        | {"/a", "/", "//a", "/a/b", "a/"})
         reqs, exp = [], []
-        import importlib
-        cp = importlib.import_module("paroxython.map_taxonomy").commonpath
+        # the transcription is of the standard library's function, whatever map_taxonomy imports
+        from posixpath import commonpath as cp
         for x in names:
             for y in names:
                 reqs.append({"op": "c10.commonpath", "a": x, "b": y})
